@@ -67,6 +67,8 @@
                   Over the generated table (tools/props/_c04_theorems.v.in): class_rotation_subspace class_mirror_subspace routing_subspace.
      Daniell      daniell_shift_presmoothing daniell_mirror_presmoothing: DaniellPeriodogram applies its smoother to the rolled / mirrored periodogram
                   (nothing more is true: Example daniell_not_a_rotation)
+     class level  class_stored_center_rotation class_stored_center_mirror (store = centerdc_2_twosided, the complex store of pmusic / pev)
+                  class_stored_two2one two2one_entries (store = twosided_2_onesided, the real store of pcorrelogram)
      correlogram, real data   over the generated table: correlogram_fold (what pcorrelogram stores for real data is twosided_2_onesided of what it
                   stores for the same spectrum declared complex: bins 0 and NFFT/2 kept, the others doubled)
    Hypotheses that are not decoration: conjugation / real-path theorems divide, so they assume the quantities the code divides
@@ -95,7 +97,7 @@ Require Import Spectrum.Theory.Ops Spectrum.Theory.Sum Spectrum.Theory.Vec Spect
                Spectrum.Proofs.ArmaEstNondeg Spectrum.Proofs.ShiftArmaEst_C04 Spectrum.Proofs.ShiftLsExact_C04 Spectrum.Instances.QcCOrd
                Spectrum.Model.Eigen Spectrum.Proofs.EigenFB Spectrum.Proofs.EigenTheory Spectrum.Proofs.ShiftEigen_C04
                Spectrum.Proofs.EigenUnique_C04 Spectrum.Proofs.ShiftEigenAny_C04 Spectrum.Proofs.MtmExample
-               Spectrum.Model.Daniell Spectrum.Proofs.ShiftDaniell_C04
+               Spectrum.Model.Daniell Spectrum.Proofs.ShiftDaniell_C04 Spectrum.Proofs.ShiftPipelineEigen_C04 Spectrum.Proofs.ShiftPipelineFold_C04
                Spectrum.Instances.QcC Spectrum.Instances.QcCTw.
 From Coq Require Import QArith Qcanon.
 
@@ -705,6 +707,33 @@ Theorem daniell_mirror_presmoothing twopi (x w : list F) P NFFT dt sbf fs :
 Proof. exact (daniell_mirror_thm n tw n_pos twopi x w P NFFT dt sbf fs). Qed.
 End C04Daniell.
 
+
+(* ---------------- class level (static, over PipelineLib.stored): the stores used by pmusic / pev and by pcorrelogram ---------------- *)
+Section C04ClassStores.
+Context {F : Type} {OF : Ops F} {L : Laws OF}.
+Local Open Scope F_scope.
+
+(* complex store = centerdc_2_twosided (SCenter2Two): commutes with the roll; turns the centred mirror of eigen() into the two-sided mirror *)
+Theorem class_stored_center_rotation twopi pm p sbf (s : sstate) (Sp : list F) (m : Z) : p_cplx p = SCenter2Two ->
+  stored twopi pm p false sbf s (rot m Sp) = rot m (stored twopi pm p false sbf s Sp).
+Proof. exact (stored_center_rot twopi pm p sbf s Sp m). Qed.
+
+Theorem class_stored_center_mirror twopi pm p sbf (s : sstate) (Sp : list F) n : p_cplx p = SCenter2Two -> length Sp = n ->
+  stored twopi pm p false sbf s (cmirror n Sp) = mirror (stored twopi pm p false sbf s Sp).
+Proof. exact (stored_center_cmirror twopi pm p sbf s Sp n). Qed.
+
+(* real store = twosided_2_onesided (STwo2One): the one-sided store is twosided_2_onesided of the two-sided store of the same spectrum *)
+Theorem class_stored_two2one twopi pm p sbf (s : sstate) (Sp : list F) :
+  p_real p = STwo2One -> p_cplx p = SAsIs -> p_scale_real p = p_scale_cplx p ->
+  st_range_N s = st_NFFT s -> length Sp = st_NFFT s ->
+  stored twopi pm p true sbf s Sp = two2one (stored twopi pm p false sbf s Sp).
+Proof. exact (stored_two2one twopi pm p sbf s Sp). Qed.
+
+Theorem two2one_entries (v : list F) j : (j <= length v / 2)%nat ->
+  nthF (two2one v) j = if ((j =? 0)%nat || (Nat.even (length v) && (j =? length v / 2)%nat))%bool then nthF v j else two * nthF v j.
+Proof. exact (nth_two2one v j). Qed.
+End C04ClassStores.
+
 (* non-vacuity: an exact character exists (n = 4), modulated runs on concrete complex data return a model *)
 Example twiddle_exists : @Twiddle _ qcc_ops 4 tw4. Proof. exact tw4_twiddle. Qed.
 Example levinson_modulation_example :
@@ -985,3 +1014,7 @@ Print Assumptions pmusic_pev_shift_any_svd.
 Print Assumptions pmusic_pev_mirror_any_svd.
 Print Assumptions daniell_shift_presmoothing.
 Print Assumptions daniell_mirror_presmoothing.
+Print Assumptions class_stored_center_rotation.
+Print Assumptions class_stored_center_mirror.
+Print Assumptions class_stored_two2one.
+Print Assumptions two2one_entries.
